@@ -262,7 +262,9 @@ class Executor:
         fn = s.prog.get(name, crate)
         if fn is None: raise Unsupported('unknown const item ' + name)
         st = State()
+        saved = dict(s.stats)
         outs = s.run_fn(fn, [], st, collect_all=True)
+        s.stats.update(saved)
         if len(outs) != 1 or outs[0].outcome[0] != 'return':
             raise Unsupported('const item %s did not evaluate to one value' % name)
         v = outs[0].outcome[1]
